@@ -58,6 +58,7 @@ class AsyncHTTP2Connection(AsyncConnectionInterface):
         self._state = HTTPConnectionState.IDLE
         self._expire_at: float | None = None
         self._request_count = 0
+        self._pending_requests = 0
         self._init_lock = AsyncLock()
         self._state_lock = AsyncLock()
         self._read_lock = AsyncLock()
@@ -98,44 +99,57 @@ class AsyncHTTP2Connection(AsyncConnectionInterface):
                 self._request_count += 1
                 self._expire_at = None
                 self._state = HTTPConnectionState.ACTIVE
+                # Until it has registered its stream this request is counted
+                # here, so that the connection is not taken for idle when the
+                # last open stream closes in the meantime.
+                self._pending_requests += 1
             else:
                 raise ConnectionNotAvailable()
 
-        async with self._init_lock:
-            if not self._sent_connection_init:
-                if self._state == HTTPConnectionState.CLOSED:
-                    # The request that was initialising the connection failed
-                    # while we were waiting for it. Nothing has been sent for
-                    # this request, so it can be retried on another connection.
-                    self._request_count -= 1
-                    raise ConnectionNotAvailable()
+        try:
+            async with self._init_lock:
+                if not self._sent_connection_init:
+                    if self._state == HTTPConnectionState.CLOSED:
+                        # The request that was initialising the connection failed
+                        # while we were waiting for it. Nothing has been sent for
+                        # this request, so it can be retried on another connection.
+                        self._request_count -= 1
+                        raise ConnectionNotAvailable()
 
-                try:
-                    kwargs = {"request": request}
-                    async with Trace("send_connection_init", logger, request, kwargs):
-                        await self._send_connection_init(**kwargs)
+                    try:
+                        kwargs = {"request": request}
+                        async with Trace(
+                            "send_connection_init", logger, request, kwargs
+                        ):
+                            await self._send_connection_init(**kwargs)
 
-                    # Initially start with just 1 until the remote server provides
-                    # its max_concurrent_streams value
-                    self._max_streams = 1
+                        # Initially start with just 1 until the remote server provides
+                        # its max_concurrent_streams value
+                        self._max_streams = 1
 
-                    local_settings_max_streams = (
-                        self._h2_state.local_settings.max_concurrent_streams
-                    )
-                    self._max_streams_semaphore = AsyncSemaphore(
-                        local_settings_max_streams
-                    )
+                        local_settings_max_streams = (
+                            self._h2_state.local_settings.max_concurrent_streams
+                        )
+                        self._max_streams_semaphore = AsyncSemaphore(
+                            local_settings_max_streams
+                        )
 
-                    for _ in range(local_settings_max_streams - self._max_streams):
-                        await self._max_streams_semaphore.acquire()
-                except BaseException as exc:
-                    with AsyncShieldCancellation():
-                        await self.aclose()
-                    raise exc
+                        for _ in range(local_settings_max_streams - self._max_streams):
+                            await self._max_streams_semaphore.acquire()
+                    except BaseException as exc:
+                        with AsyncShieldCancellation():
+                            await self.aclose()
+                        raise exc
 
-                self._sent_connection_init = True
+                    self._sent_connection_init = True
 
-        await self._max_streams_semaphore.acquire()
+            await self._max_streams_semaphore.acquire()
+        except BaseException:
+            self._pending_requests -= 1
+            with AsyncShieldCancellation():
+                await self._update_idle_state()
+            raise
+        self._pending_requests -= 1
 
         try:
             stream_id = self._h2_state.get_next_available_stream_id()
@@ -427,11 +441,18 @@ class AsyncHTTP2Connection(AsyncConnectionInterface):
     async def _response_closed(self, stream_id: int) -> None:
         await self._max_streams_semaphore.release()
         del self._events[stream_id]
+        await self._update_idle_state()
+
+    async def _update_idle_state(self) -> None:
         async with self._state_lock:
             if self._connection_terminated and not self._events:
                 await self.aclose()
 
-            elif self._state == HTTPConnectionState.ACTIVE and not self._events:
+            elif (
+                self._state == HTTPConnectionState.ACTIVE
+                and not self._events
+                and not self._pending_requests
+            ):
                 self._state = HTTPConnectionState.IDLE
                 if self._keepalive_expiry is not None:
                     now = time.monotonic()
